@@ -218,6 +218,48 @@ def climb(fn, n, wrappers=VALUE_WRAPPERS):
     return n, p
 
 
+def value_leaves(fn, v, depth=0):
+    """The expressions a value may come from, with folded helpers and closures looked into: every `return` value of a folded
+    callee (however many it has), both arms of a conditional expression; anything else is a leaf."""
+    if v is None or depth > 12:
+        return []
+    x = v.strip()
+    hops = 0
+    while x.kind in ("ExprWithCleanups", "MaterializeTemporaryExpr", "CXXBindTemporaryExpr") and len(x.children) == 1 and hops < 6:
+        x, hops = x.children[0].strip(), hops + 1
+    if x.d.get("inlined") and x.d.get("rets") is not None:
+        out = []
+        for r in x.d["rets"]:
+            out += value_leaves(fn, fn.node(r), depth + 1)
+        return out
+    if x.kind == "ConditionalOperator" and len(x.children) == 3:
+        return value_leaves(fn, x.children[1], depth + 1) + value_leaves(fn, x.children[2], depth + 1)
+    if x.kind == "DeclRefExpr" and x.d.get("d") in fn.bind_map():
+        return value_leaves(fn, fn.node(fn.bind_map()[x.d["d"]]), depth + 1)
+    return [x]
+
+
+def return_sites(fn):
+    """[(anchor, value)]: every place a value of the function is decided, with folded helpers looked into -- the anchor is
+    the `return` (of the function itself or of the folded helper) at which the value is produced, so that dominance can
+    be asked about it."""
+    out = []
+
+    def expand(anchor, v, depth=0):
+        if v is None:
+            return
+        x = v.strip()
+        if x.d.get("inlined") and x.d.get("rets") is not None and depth < 12:
+            for r in x.d["rets"]:
+                anc = [m for m in fn.all_nodes() if m.kind == "InlinedReturn" and m.d.get("val") == r]
+                expand(anc[0] if anc else anchor, fn.node(r), depth + 1)
+            return
+        out.append((anchor, v))
+    for r in fn.return_nodes():
+        expand(r, r.child("val"))
+    return out
+
+
 def path(n, fn=None):
     """Access path of an lvalue/pointer expression as a tuple, or None.
 
@@ -741,7 +783,8 @@ def resolve_member_pointers(fd, callee_by_did=None):
     def strip(i, hops=0):
         while hops < 12:
             x = nodes[i]
-            if x.get("k") in ("ImplicitCastExpr", "ParenExpr", "CStyleCastExpr", "CXXStaticCastExpr") and x.get("c"):
+            if x.get("k") in ("ImplicitCastExpr", "ParenExpr", "CStyleCastExpr", "CXXStaticCastExpr",
+                              "SubstNonTypeTemplateParmExpr", "ConstantExpr") and x.get("c"):
                 i, hops = x["c"][0], hops + 1
                 continue
             if x.get("k") == "DeclRefExpr" and x.get("d") in bind:
